@@ -502,7 +502,7 @@ pub fn run(ctx: &Ctx) {
         Event::Foreign(d1.clone()),
         Event::LookAlike(d2.clone()),
     ];
-    let depth = ctx.tier.pick(3usize, 5usize);
+    let depth = ctx.eff_tier().pick(3usize, 5usize);
     let mut hists: Vec<Vec<Event>> = vec![vec![]];
     let mut frontier: Vec<Vec<Event>> = vec![vec![]];
     for _ in 0..depth {
@@ -538,7 +538,7 @@ pub fn run(ctx: &Ctx) {
     {
         let picks: Vec<Desc> = {
             let mut v = vec![d1.clone(), d2.clone()];
-            if ctx.tier == crate::engine::Tier::Thorough {
+            if ctx.eff_tier() == crate::engine::Tier::Thorough {
                 v.push(d3.clone());
                 v.extend(descs.iter().filter(|d| d.ips.len() == 4 && d.ports.len() == 3 && d.attrs.len() == 3).take(2).cloned());
                 v.extend(descs.iter().filter(|d| d.ips.len() == 1 && d.ports.is_empty() && d.attrs.len() == 1).take(2).cloned());
@@ -597,7 +597,7 @@ pub fn run(ctx: &Ctx) {
     // escape / unescape
     let mut strs: Vec<String> = Vec::new();
     let mut b = Vec::new();
-    crate::engine::for_each_string_upto(b"a.\\", ctx.tier.pick(8, 10), &mut b, &mut |x| strs.push(String::from_utf8(x.to_vec()).unwrap()));
+    crate::engine::for_each_string_upto(b"a.\\", ctx.eff_tier().pick(8, 10), &mut b, &mut |x| strs.push(String::from_utf8(x.to_vec()).unwrap()));
     let schunks: Vec<&[String]> = strs.chunks(512).collect();
     par_shards(ctx, &schunks, |ss, t: &mut Tally| {
         for s in ss.iter() {
@@ -612,7 +612,7 @@ pub fn run(ctx: &Ctx) {
         }
         t.outcome("escape");
     });
-    ctx.space(&format!("escape/unescape: all strings of length <= {} over {{a, '.', '\\'}}", ctx.tier.pick(8, 10)), strs.len() as u64, "complete");
+    ctx.space(&format!("escape/unescape: all strings of length <= {} over {{a, '.', '\\'}}", ctx.eff_tier().pick(8, 10)), strs.len() as u64, "complete");
     ctx.sample(json!({"kind": "escape", "s": "a.\\.\\\\"}));
     {
         // helper conversions: every port with a v4 and a v6 address; walking-bit addresses
